@@ -173,7 +173,7 @@ def cancel_points(base_steps, sc, rng, limit):
 def stray_points(base_steps, sc, rng, limit):
     out = []
     nc, n = len(sc["pol"]), sc["n"]
-    kinds = ["Schedule", "Run", "Consts", "Validate", "MsgBad", "MsgEarly", "RunEarly"]
+    kinds = ["Schedule", "Run", "Consts", "Validate", "MsgBad", "MsgEarly", "RunEarly", "ConstsBad"]
     pts = [(k, c, p, t) for k in range(len(base_steps) + 1) for c in range(1, nc + 1) for p in range(n) for t in kinds]
     if limit and len(pts) > limit:
         pts = rng.sample(pts, limit)
